@@ -436,8 +436,15 @@ class Check:
                    known_findings_printed=list(self.known_printed), notes=self.notes)
         ev = dict(property_id=self.prop, tier=self.tier, seed=self.seed, level='proof', coverage=cov,
                   assumptions=self.assumptions, wall_s=round(wall, 2), violations=nviol)
-        (VERIF / 'evidence').mkdir(exist_ok=True)
-        (VERIF / 'evidence' / f'{self.prop}.json').write_text(json.dumps(ev, indent=1, default=str))
+        if str(REPO) == '/repo':
+            (VERIF / 'evidence').mkdir(exist_ok=True)
+            (VERIF / 'evidence' / f'{self.prop}.json').write_text(json.dumps(ev, indent=1, default=str))
+        else:
+            # a run against a scratch copy (VERIF_REPO=…, e.g. a seeded change) must not overwrite
+            # the evidence of the check on /repo itself
+            (VERIF / 'replays').mkdir(exist_ok=True)
+            ev['repo'] = str(REPO)
+            (VERIF / 'replays' / f'evidence-{self.prop}-scratch.json').write_text(json.dumps(ev, indent=1, default=str))
         for l in lines:
             print(l)
         print(f'[{self.prop}] tier={self.tier} seed={self.seed} obligations={n_dis}/{n_obl} '
